@@ -101,6 +101,8 @@ def handleE (j : Json) : Except String Json := do
     | .ok st => pure (Json.mkObj [("ok", Json.mkObj [
         ("mapping", Json.arr (st.mapping.map (fun (v, r) => Json.arr #[Json.str v, Json.num (JsonNumber.fromNat r)])).toArray),
         ("used", jNats (PV.RegAlloc.usedRegisters st))])])
+  | "check-fall" => do pure (Json.mkObj [("ok", ← PV.DriverRun.checkFallCmd j)])
+  | "run-regions" => do pure (Json.mkObj [("ok", ← PV.DriverRun.runRegions j)])
   | "check-alloc" => do pure (Json.mkObj [("ok", ← PV.DriverRun.checkAlloc j)])
   | "run-pair" => do pure (Json.mkObj [("ok", ← PV.DriverRun.runPair j)])
   | "wf" => do pure (Json.mkObj [("ok", ← PV.DriverRun.wf j)])
